@@ -1772,22 +1772,23 @@ class DynDiGraph(nx.DiGraph):
         H.add_nodes_from(self)
 
         if reciprocal is True:
-            for u in self._node:
-                for v in self._node:
-                    if u >= v:
-                        try:
-                            outc = self._succ[u][v]['t']
-                            intc = self._pred[u][v]['t']
-                            for o in outc:
-                                r = set(range(o[0], o[1] + 1))
-                                for i in intc:
-                                    r2 = set(range(i[0], i[1] + 1))
-                                    inter = sorted(r & r2)
-                                    if len(inter) > 0:
-                                        H.add_interaction(u, v, t=inter[0], e=inter[-1] + 1)
+            # each unordered node pair once (self-pairs included); node ids need not be orderable
+            nodes = list(self._node)
+            for k, u in enumerate(nodes):
+                for v in nodes[:k + 1]:
+                    try:
+                        outc = self._succ[u][v]['t']
+                        intc = self._pred[u][v]['t']
+                        for o in outc:
+                            r = set(range(o[0], o[1] + 1))
+                            for i in intc:
+                                r2 = set(range(i[0], i[1] + 1))
+                                inter = sorted(r & r2)
+                                if len(inter) > 0:
+                                    H.add_interaction(u, v, t=inter[0], e=inter[-1] + 1)
 
-                        except Exception:
-                            pass
+                    except Exception:
+                        pass
 
         else:
             spans = {}
